@@ -22,21 +22,29 @@ var treeKeys = []string{"a", "b"}
 
 // ndNode draws a symbolic tree of at most the given depth.
 func ndNode(name string, depth int, allowAbsent bool) node {
+	// shapes: absent, null, scalar, [list — bound "lists"=1], [table — below the depth bound]
+	lists := vBound("lists", 0) == 1
 	n := 3
+	if lists {
+		n++
+	}
 	if depth > 0 {
-		n = 4
+		n++
 	}
 	c := ndChoice(name+".shape", n)
 	if !allowAbsent && c == 0 {
 		c = 2
 	}
-	switch c {
-	case 0:
+	switch {
+	case c == 0:
 		return node{}
-	case 1:
+	case c == 1:
 		return node{true, nil}
-	case 2:
+	case c == 2:
 		return node{true, ndInt64(name + ".scalar")}
+	case c == 3 && lists:
+		// a list: replaced as a whole, never merged element by element
+		return node{true, []interface{}{ndInt64(name + ".elem"), "tail"}}
 	}
 	t := map[string]interface{}{}
 	for j, k := range treeKeys {
